@@ -32,6 +32,8 @@ func init() {
 			{ID: "C06.R10", Text: "tracked offsets are offsets of events: every call of the position writer is an acknowledgement or an absorption of an event's own offset — no synthetic position is ever stored (same rule as C01.R2)", Run: c01r2},
 			{ID: "C06.R11", Text: "a loaded checkpoint is a whole document: the map wrapper installs decoded entries only when the entire input decoded, and forwards faithfully otherwise (same rule as C04.R9)", Run: wrapperFaithful},
 			{ID: "C06.R12", Text: "offsets carry the branch the stream was opened on: SetVbUUID stores its parameter into observer.vbUUID unconditionally", Run: setterStores},
+			{ID: "C06.R13", Text: "what is persisted is the document Save built: the backends marshal the document they are given under the id of the same vBucket and keep nothing from an earlier file or another encoding (same rule as C01.R6)", Run: c01r6},
+			{ID: "C06.R14", Text: "no offset is handed on for an event that did not pass the snapshot test of its own handler: every event wrapper is built by the stream-observer handler of its own kind from the event it received (same rule as C03.R4)", Run: c03r4},
 			{ID: "C06.R5", Text: "the persisted document is built field by field from one offset (same rule as C02.R2)", Run: c02r2},
 		},
 	})
